@@ -16,7 +16,7 @@ FAMILY = {
             "adaptive_transition_iff_adaptation_epoch", "tune_only_after_adaptation_epoch",
             "slow_tuning_iff_slow_epoch", "no_history_unless_asked",
             "history_is_this_epochs_stored_chain_length", "history_is_this_epochs_stored_chain_content",
-            "init_state_only_at_construction", "design_invariants", "no_action_matches",
+            "init_state_only_at_construction", "design_invariants", "tuning_times_are_the_end_times_of_the_adaptation_epochs", "no_action_matches",
             "sample_all_epochs_does_not_raise"},
     "C08": {"results_read_when_idle", "one_stored_chain_per_started_epoch",
             "tracked_keys_respect_included_excluded", "stored_chain_is_thinned_per_iteration_states",
